@@ -1640,13 +1640,12 @@ class ExpanderHelper:
         """
 
         start = list(filter(None, self.tokens[: self.pos]))
+        inserted = list(filter(None, upper_helper.tokens))
 
         self.tokens = (
-            start
-            + list(filter(None, upper_helper.tokens))
-            + list(filter(None, self.tokens[self.pos :]))
+            start + inserted + list(filter(None, self.tokens[self.pos :]))
         )
-        self.pos = len(start)
+        self.pos = len(start) + len(inserted)
 
     def peek_tok(self):
         """
